@@ -1,10 +1,12 @@
 pub mod c01;
+pub mod c06;
 
 use crate::run::RunCtx;
 
 pub fn dispatch(prop: &str, rc: &mut RunCtx) -> bool {
     match prop {
         "C01" => c01::run(rc),
+        "C06" => c06::run(rc),
         _ => return false,
     }
     true
